@@ -204,6 +204,10 @@ func GetNode(children []*Node, path string) (*Node, bool) {
 			continue
 		}
 		if len(node.Children) == 0 {
+			// a file has nothing beneath it
+			if len(pathSplit) > 1 {
+				return nil, false
+			}
 			return node, true
 		}
 		if len(pathSplit) > 1 {
